@@ -2,7 +2,7 @@
 
 PROPS = {
     "C07": {
-        "units": {"kani": ["c07_sha256", "c07_sha512", "c07_ripemd160"], "polyvc": ["c07_sha256_gates", "c07_sha512_gates", "c07_ripemd160_gates"]},
+        "units": {"kani": ["c07_sha256", "c07_sha512", "c07_ripemd160", "c07_poseidon_varlen"], "polyvc": ["c07_sha256_gates", "c07_sha512_gates", "c07_ripemd160_gates"]},
         "scope": "off-circuit spread/limb kernels of the SHA-256, SHA-512 and RIPEMD-160 chips (table contents and every witness limb are computed by them)",
         "not_decided": ["all in-circuit constraint emission, table wiring, message schedule, padding, varlen selection",
                         "Poseidon (chip, cpu, round skips), Keccak/SHA3, BLAKE2b"],
@@ -94,7 +94,7 @@ PROPS["C06"] = {
     "design_ref": "DESIGN.md section 5, C06",
 }
 PROPS["C05"] = {
-    "units": {"verus": ["c05_biguint_bounds"]},
+    "units": {"verus": ["c05_biguint_bounds"], "kani": ["c05_chunk_weights"]},
     "scope": "one bookkeeping kernel of the BigUint gadget: the size-bound arithmetic that decides when lazily-normalised limbs must be renormalised",
     "not_decided": ["the CRT identity and get_identity_auxiliary_bounds of the foreign-field chip (BigInt + closures: not ingestible without rewriting, which would be a model)",
                     "every foreign-field / BigUint gate, range check, quotient and carry constraint", "equality / public-input exposure of emulated elements"],
